@@ -78,6 +78,12 @@ def toREM (fl : Flags) : Rx → RE
   | .quant r lo hi _ => rep (toREM fl r) lo hi
   | .backref _ => .empty
 
+/-- some item names an unknown `Is` block (known finding F12u when the class is parsed for XSD 1.0) -/
+def CClass.unknownBlock : CClass → Bool
+  | .mk _ items sub =>
+    items.any (fun | .prop name _ => (propLookup name).isNone && name.take 2 == [73, 115] | _ => false) ||
+    (match sub with | none => false | some s => s.unknownBlock)
+
 def classF12 (c : CClass) : Bool := match c.toClassEM with | some e => e.f12 | none => false
 
 def Rx.anyClass (p : CClass → Bool) : Rx → Bool
@@ -125,19 +131,19 @@ def answerCls (fs : List (String × String)) : String :=
     let v10 := field fs "v" == "10"
     let o : Opts := { xpath := field fs "x" == "1" }
     let b (x : Bool) := if x then "1" else "0"
-    let model := match parseClassText implT v10 src with
+    let model := match parseClassText implT v10 o.xpath src with
       | none => "ERR"
       | some cc => bits (probes.map fun x => decide (x < maxCP1) && cc.contains x)
-    let (spec, unclear, f12) := match src with
+    let (spec, unclear, f12, ublk) := match src with
       | 91 :: rest =>
         match pClass o (3 * rest.length + 4) rest {} with
         | some (c, [], st) =>
           match c.toClassE specT with
-          | some e => (bits (probes.map fun x => specClass e x), st.unclear, e.f12)
-          | none => ("BAD", st.unclear, false)
-        | _ => ("BAD", false, false)
-      | _ => ("BAD", false, false)
-    s!"model={model} spec={spec} unclear={b unclear} f12={b f12} scan={b (scanTrigger src)}"
+          | some e => (bits (probes.map fun x => specClass e x), st.unclear, e.f12, false)
+          | none => ("BAD", st.unclear, false, c.unknownBlock)
+        | _ => ("BAD", false, false, false)
+      | _ => ("BAD", false, false, false)
+    s!"model={model} spec={spec} unclear={b unclear} f12={b f12} scan={b (scanTrigger src)} ublk={b ublk}"
   | _, _ => "bad-cls"
 
 def flagsOf (f : String) : Flags := { dotAll := f.contains 's', multi := f.contains 'm' }
@@ -170,7 +176,7 @@ def answerPat (fs : List (String × String)) : String :=
         if f.contains 'q' then some (literalRx src0, false)
         else parseRx o (if f.contains 'x' then stripX src0 0 else src0)
       match parsed with
-      | none => "valid=0 unclear=0 f12=0 scan=" ++ (if scanTrigger src0 then "1" else "0") ++ " bref=0 props=1 model=- spec=-"
+      | none => "valid=0 unclear=0 f12=0 scan=" ++ (if scanTrigger src0 then "1" else "0") ++ " bref=0 props=1 ublk=0 model=- spec=-"
       | some (r, unclear) =>
         let props := r.propsKnown specT
         let bref := r.hasBackref
@@ -178,7 +184,8 @@ def answerPat (fs : List (String × String)) : String :=
         let scan := !f.contains 'q' && scanTrigger src0
         let fl := flagsOf f
         let b (x : Bool) := if x then "1" else "0"
-        let hdr := s!"valid={b props} unclear={b unclear} f12={b f12} scan={b scan} bref={b bref} props={b props}"
+        let ublk := r.anyClass CClass.unknownBlock
+        let hdr := s!"valid={b props} unclear={b unclear} f12={b f12} scan={b scan} bref={b bref} props={b props} ublk={b ublk}"
         if !props || bref then hdr ++ " model=- spec=-" else
         let rs := r.toRE specT fl
         let rm := toREM fl r
